@@ -32,7 +32,7 @@ RULE = ("graphs: DAGs with 5-40 packages, topologically numbered, names from a p
         "predicates with !, &&, ||, relative and absolute paths, string comparisons and string leaves in boolean context, function "
         "calls, aliases, trailing slashes), 60% of them guided along an existing root path; rendered with full or minimal "
         "parentheses. A case is one (graph, query text, aliases) and is counted distinct by that triple; it is non-trivial if the "
-        "query has at least one step. malformed stream: one-character mutations of rendered queries.")
+        "query has at least one step. 10% of the queries and 14% of the generated predicates carry ABSOLUTE paths whose final wildcard step has a nested predicate, several of them combined with !, && and ||; 6 x 16 such predicate heavy cases are always run. malformed stream: one-character mutations of rendered queries.")
 ASSUMPTIONS = ["pyparsing's text->AST step is validated by the differential run only (the model receives the AST)",
                "string leaves of predicates are pre-evaluated per package by the harness with the real bob.stringparser "
                "(C17's subject); the model treats them as given strings",
@@ -318,8 +318,82 @@ def gen_path(r, G, depth, top):
     return {"lead": lead, "steps": steps, "seps": seps}
 
 
+def gen_inner_pred(r, G, node=None):
+    """a small predicate without absolute paths: comparison, truth value, relative path, negation of these"""
+    k = r.random()
+    if k < 0.4:
+        a = r.randrange(len(LEAVES))
+        P = ("cmp", r.choice(CMP_OPS), a, r.choice(TWINS.get(a, [a])) if r.random() < 0.4 else r.randrange(len(LEAVES)))
+    elif k < 0.55:
+        P = ("truth", r.randrange(len(LEAVES)))
+    else:
+        names = [nm for (nm, _, _) in eff_children(G, node)] if node is not None and eff_children(G, node) else G["names"][1:]
+        P = ("path", {"lead": None, "steps": [{"axis": r.choice([None, None, "child", "descendant", "direct-child"]),
+                                               "test": r.choice(names), "pred": None}], "seps": []})
+    return ("not", P) if r.random() < 0.2 else P
+
+
+def gen_abs_pred(r, G):
+    """an ABSOLUTE location path as predicate (a context independent exists test), along existing edges from the
+    root, whose final step is a wildcard that carries its own nested predicate"""
+    lead = r.choice(["/", "/", "/", "//"])
+    steps, seps, node = [], [], 0
+    for _ in range(r.choice([0, 1, 1, 1, 2])):
+        ch = [x for x in eff_children(G, node) if eff_children(G, x[1])]
+        if not ch:
+            break
+        (nm, node, _) = r.choice(ch)
+        steps.append({"axis": None, "test": nm if r.random() < 0.8 else "*", "pred": None})
+        seps.append("/")
+    ch = eff_children(G, node)
+    k = r.random()
+    nm = r.choice(ch)[0] if ch else "x"
+    test = "*" if k < 0.7 else (nm[:1] + "*") if k < 0.85 else nm
+    axis = r.choice([None, None, None, "child", "descendant", "descendant-or-self", "direct-child"])
+    steps.append({"axis": axis, "test": test, "pred": gen_inner_pred(r, G, node)})
+    return ("path", {"lead": lead, "steps": steps, "seps": seps[:len(steps) - 1]})
+
+
+def gen_heavy_pred(r, G, n=None):
+    """several absolute-path predicates combined with !, && and || (evaluations that share sets show up here)"""
+    n = n or r.choice([1, 2, 2, 3])
+    P = None
+    for i in range(n):
+        Q = gen_abs_pred(r, G) if (i == 0 or r.random() < 0.7) else gen_inner_pred(r, G)
+        if r.random() < 0.3:
+            Q = ("not", Q)
+        P = Q if P is None else (r.choice(["and", "or"]), P, Q)
+    return ("not", P) if r.random() < 0.15 else P
+
+
+def gen_heavy_query(r, G):
+    """a query whose steps carry predicates with absolute paths"""
+    k = r.random()
+    steps, seps = [], []
+    if k < 0.45:
+        lead = "//"
+        steps.append({"axis": None, "test": r.choice(["*", "*", r.choice(G["names"][1:])]), "pred": gen_heavy_pred(r, G)})
+    else:
+        lead = r.choice([None, "/"])
+        node = 0
+        for i in range(r.choice([1, 2, 2, 3])):
+            ch = eff_children(G, node)
+            if not ch:
+                break
+            (nm, node, _) = r.choice(ch)
+            if i:
+                seps.append("/")
+            steps.append({"axis": None, "test": nm if r.random() < 0.6 else "*",
+                          "pred": gen_heavy_pred(r, G, r.choice([1, 1, 2])) if (i == 0 or r.random() < 0.6) else None})
+    p = {"lead": lead, "steps": steps, "seps": seps}
+    minimal = r.random() < 0.8
+    return {"text": render_path(p, minimal, r.choice([" ", " ", ""])) + r.choice(["", "", "/"]), "aliases": {}, "path": p}
+
+
 def gen_pred(r, G, depth):
     k = r.random()
+    if k < 0.14:
+        return gen_abs_pred(r, G) if r.random() < 0.6 else gen_heavy_pred(r, G, 2)
     if depth <= 0:
         k = 0.45 + k * 0.55
     if k < 0.15:
@@ -430,6 +504,8 @@ def gen_query(r, G):
     if r.random() < 0.015:
         # the root itself
         return {"text": r.choice(["", "/", "//", "///"]), "aliases": {}, "path": {"lead": None, "steps": [], "seps": []}}
+    if r.random() < 0.1:
+        return gen_heavy_query(r, G)
     p = gen_path(r, G, r.choice([0, 0, 0, 1, 1, 1, 1, 2, 2]), True)
     minimal = r.random() < 0.8
     sp = r.choice([" ", " ", "", "  "])
@@ -932,6 +1008,8 @@ def corpus():
                  {"V": "a", "L": "MIT"}, {"V": "b"}, {"V": "", "N": "lib"}]}
     V, A, B = 0, 3, 4          # leaves "$V", 'a', 'b'
     path_x = ("path", _P(None, _S("x", "direct-child")))
+    abs_b = ("path", _P("/", _S("a1"), "/", _S("*", None, ("cmp", "==", V, B))))          # /a1/*["$V" == 'b']  (matches b)
+    abs_none = ("path", _P("/", _S("a1"), "/", _S("*", None, ("cmp", "==", V, 6))))       # /a1/*["$V" == '']  (matches nothing)
     qs = [
         _Q(_P("//", _S("a*"))), _Q(_P(None, _S("a1"), "/", _S("a*", "descendant-or-self"))), _Q(_P("/", _S("a*", "descendant"))),
         _Q(_P(None, _S("*"), "/", _S("c"), "//", _S("x"))), _Q(_P(None, _S("*"), "/", _S("b"), "/", _S("x", "descendant"))),
@@ -953,6 +1031,16 @@ def corpus():
         _Q(_P(None, _S("a1"), "/", _S("."))), _Q(_P(None, _S("."), "//", _S("x"))), _Q(_P("/", _S("*", "descendant-or-self"), "/", _S("x", "child"))),
         _Q(_P(None, _S("b"), "//", _S("x"))), _Q(_P("//", _S("b"), "/", _S("*"))),
         _Q(_P("//", _S("*", None, ("and", ("path", _P(None, _S("x"))), ("or", ("cmp", "==", V, A), ("not", ("path", _P(None, _S("z"))))))))),
+        # absolute paths in predicates whose final wildcard step has its own predicate: true for every package or for none
+        _Q(_P("//", _S("*", None, abs_b))), _Q(_P("//", _S("*", None, ("not", abs_b)))), _Q(_P("//", _S("*", None, abs_none))),
+        _Q(_P("//", _S("*", None, ("not", abs_none)))), _Q(_P("//", _S("*", None, ("path", _P("/", _S("*"), "/", _S("*", None, ("path", _P(None, _S("a2"))))))))),
+        _Q(_P("//", _S("*", None, ("path", _P("//", _S("*", None, ("cmp", "==", V, B))))))),
+        _Q(_P(None, _S("a1", None, abs_b))), _Q(_P(None, _S("*", None, abs_b), "/", _S("*", None, abs_b))),
+        _Q(_P("//", _S("*", None, ("and", ("cmp", "==", V, A), abs_b)))), _Q(_P("//", _S("*", None, ("or", abs_none, abs_b)))),
+        _Q(_P("//", _S("*", None, ("and", abs_b, ("not", abs_none))))), _Q(_P("//", _S("x", None, ("and", abs_b, abs_b)))),
+        _Q(_P("//", _S("*", None, abs_b), "/", _S("*", None, ("not", abs_b)))),
+        _Q(_P("//", _S("*", None, ("path", _P("/", _S("a1"), "/", _S("*", "descendant", ("cmp", "==", V, A))))))),
+        _Q(_P("//", _S("*", None, ("path", _P("/", _S("*", "descendant-or-self", ("truth", 1))))))),
     ]
     return G, qs
 
@@ -962,9 +1050,15 @@ def run_graph(job):
     (key, nq, nmal, tmp, want_all_share) = job
     r = random.Random(key)
     fixed = None
-    if key.endswith("corpus"):
+    if "-corpus" in key:
         G, fixed = corpus()
+        fixed = fixed[int(key[-1])::3]          # three slices, run in parallel
         nq, nmal, want_all_share = len(fixed), 0, 1.0
+    elif "-heavy" in key:
+        # predicate heavy cases: every query carries predicates with absolute paths
+        G = gen_graph(r, r.choice([6, 8, 10, 12]))
+        fixed = [gen_heavy_query(r, G) for _ in range(nq)]
+        nmal = 0
     else:
         G = gen_graph(r)
     svals = leaf_values(G)
@@ -975,7 +1069,8 @@ def run_graph(job):
         for qi in range(nq):
             q = fixed[qi] if fixed else gen_query(r, G)
             extra_mode = r.choice(MODES)
-            rec, viol = check_case(G, svals, sem, impl, q, extra_mode, r.random() < want_all_share, full=bool(fixed))
+            rec, viol = check_case(G, svals, sem, impl, q, extra_mode, r.random() < want_all_share,
+                                   full="-corpus" in key)
             if any(sig == "query-hang" for (_, sig) in viol):
                 out["cases"].append(rec)
                 out["viol"] += [{"what": what, "signature": sig, "q": q, "extra_mode": extra_mode} for (what, sig) in viol]
@@ -1072,7 +1167,9 @@ def oracle(ctx):
         batch = [("%s-%d-g%d" % (ctx.prop, ctx.seed, done + i), nq, nmal, ctx.tmp, 0.5)
                  for i in range(min(8 if done == 0 else 16, n_graphs - done))]
         if done == 0:
-            batch.insert(0, ("%s-corpus" % ctx.prop, 0, 0, ctx.tmp, 1.0))
+            # always run, however loaded the machine is: the directed corpus and 6 x 16 predicate heavy cases
+            batch = [("%s-corpus%d" % (ctx.prop, i), 0, 0, ctx.tmp, 1.0) for i in range(3)] + \
+                    [("%s-%d-heavy%d" % (ctx.prop, ctx.seed, i), 16, 0, ctx.tmp, 0.5) for i in range(6)] + batch
         done += len(batch)
         for g in ctx.parallel(run_graph, batch):
             _RUN["graphs"].append(g)
